@@ -121,7 +121,7 @@ static int ev_cli(coap_session_t *s, coap_event_t e) {
   return 0;
 }
 
-/* TX<c|s>:idx:type:code:mid:tok:b1:b2:size1:size2:plen:phash:dlen */
+/* TX<c|s>:idx:type:code:mid:tok:b1:b2:size1:size2:plen:phash:dlen:etag */
 static void show_tx(size_t i) {
   vn_dgram_t *d = &vn_out[i];
   coap_pdu_t *p = coap_pdu_init(0, 0, 0, d->len + 8);
@@ -146,7 +146,10 @@ static void show_tx(size_t i) {
   if (o) printf("%u:", coap_decode_var_bytes(coap_opt_value(o), coap_opt_length(o)));
   else printf("-:");
   coap_get_data(p, &len, &data);
-  printf("%zu:%08x:%zu ", len, data ? fnv(data, len) : 0, d->len);
+  printf("%zu:%08x:%zu:", len, data ? fnv(data, len) : 0, d->len);
+  o = coap_check_option(p, COAP_OPTION_ETAG, &oi);
+  if (o) printf("%llu ", (unsigned long long)coap_decode_var_bytes8(coap_opt_value(o), coap_opt_length(o)));
+  else printf("- ");
   coap_delete_pdu(p);
 }
 
